@@ -4,8 +4,9 @@
 
    What is proved here: for every client program - any interleaving of its own `with` blocks with
    calls, resumptions and finalisations (in any order, any number of times) of the library routines -
-   the default-filter stack the client observes is the one its own blocks established, for all
-   routines except the four listed in Filters.known_offenders (refuted in Props/C08Refuted.v).
+   the default-filter stack the client observes is the one its own blocks established, for *all*
+   routines of the current source (C08_frame_real).  Until /repo commits b5ea840 / 7e4e5e3 four
+   routines did not pass; their old summaries are kept below as a historical example.
    What is *not* proved here: that results do not depend on the ambient filters (second half of the
    property); that part is differential testing in harness/props/c08.py, supported only by the
    structural lemma C08_listed_ops_shielded below. *)
@@ -21,19 +22,21 @@ Theorem C08_frame : forall filt routines, Forall (balanced filt) routines ->
 Proof. exact frame. Qed.
 Print Assumptions C08_frame.
 
-(* the generated summaries, minus the known offenders, pass the decidable check.  A new function that
-   holds altered_default_filters across a yield, or a new decorated generator, breaks this lemma. *)
-Lemma all_balanced : forallb routine_ok (guarded routines) = true.
+(* every generated summary passes the decidable check: no function holds altered_default_filters
+   across a yield, no generator function is decorated with it.  A new function that does either
+   breaks this lemma (by vm_compute over the regenerated definitions). *)
+Lemma all_balanced : forallb routine_ok routines = true.
 Proof. vm_compute. reflexivity. Qed.
 Print Assumptions all_balanced.
 
-(* the property for the real routines outside the guard *)
-Theorem C08_frame_partial : forall filt p st,
-  run filt (map f_segs (guarded routines)) p st = own filt p st.
-Proof. exact (fun filt => frame_checked filt (guarded routines) all_balanced). Qed.
-Print Assumptions C08_frame_partial.
-(* full statement, false of the unchanged tree (Props/C08Refuted.v):
-   forall filt p st, run filt (map f_segs routines) p st = own filt p st *)
+Lemma no_offenders : offenders routines = [] /\ forallb decoration_effective routines = true.
+Proof. vm_compute. split; reflexivity. Qed.
+
+(* the property for the real routines, unconditionally *)
+Theorem C08_frame_real : forall filt p st,
+  run filt (map f_segs routines) p st = own filt p st.
+Proof. exact (fun filt => frame_checked filt routines all_balanced). Qed.
+Print Assumptions C08_frame_real.
 
 (* serialize, xpath (hence css_select), clone, detach, merge_text_nodes, _reduce_whitespace and
    Document.__serialize are plain functions decorated with @altered_default_filters(): their bodies
@@ -42,11 +45,30 @@ Lemma C08_listed_ops_shielded : forallb (fun n => mem n (shielded routines)) lis
 Proof. vm_compute. reflexivity. Qed.
 Print Assumptions C08_listed_ops_shielded.
 
-(* non-vacuity: a client with nested blocks of its own around calls of library routines that pass the check *)
+(* non-vacuity: a client with nested blocks of its own around a suspended iterate_descendants
+   generator (segments 0 and 1: up to the first yield, between yields) and a call of xpath *)
 Example C08_example :
-  let rs := guarded routines in
+  let rs := routines in
+  let g := index_of "TagNode.iterate_descendants" rs in
   let x := index_of "NodeBase.xpath" rs in
-  let l := index_of "TagNode.location_path" rs in
-  run nat (map f_segs rs) [CPush 1; Seg x 0; CPush 2; Seg l 0; CPop; Seg x 0] [] = Some [Some 1]
-  /\ seg_of (map f_segs rs) x 0 = [LPush; LPop].
-Proof. vm_compute. split; reflexivity. Qed.
+  run nat (map f_segs rs) [CPush 1; Seg g 0; CPush 2; Seg x 0; Seg g 1; CPop; Seg g 1; Seg g 2] [] = Some [Some 1]
+  /\ seg_of (map f_segs rs) x 0 = [LPush; LPop] /\ f_generator (nth g rs (mk_fsum "" "" false false [])) = true.
+Proof. vm_compute. repeat split. Qed.
+
+(* HISTORICAL (before /repo commits b5ea840, 7e4e5e3; not about the current source): the summaries the
+   generator produced for the four routines then, written out as literals.  They fail the check, and
+   the frame statement fails for them: inside `for n in root.iterate_descendants():` under the
+   client's own filters 7 the top of the stack was a library entry; finalising suspended generators
+   out of order popped the client's entry. *)
+Definition historical_routines : list fsum :=
+  [ mk_fsum "_delb/nodes.py" "NodeBase._iterate_preceding" true true [[LPush; LPop]; []; []; []; []; []; []];
+    mk_fsum "_delb/nodes.py" "TagNode.iterate_descendants" false true [[LPush]; []; [LPop]];
+    mk_fsum "delb/__init__.py" "_Epilogue._iter_all" false true [[LPush]; []; [LPop]];
+    mk_fsum "delb/__init__.py" "_Prologue._iter_all" false true [[LPush]; []; [LPop]] ].
+Example C08_historical_refutation :
+  offenders historical_routines =
+    ["NodeBase._iterate_preceding"; "TagNode.iterate_descendants"; "_Epilogue._iter_all"; "_Prologue._iter_all"]
+  /\ run nat (map f_segs historical_routines) [CPush 7; Seg 1 0] [] = Some [None; Some 7]
+  /\ own nat [CPush 7; Seg 1 0] [] = Some [Some 7]
+  /\ run nat (map f_segs historical_routines) [Seg 1 0; CPush 7; Seg 1 2] [] = Some [None].
+Proof. vm_compute. repeat split. Qed.
